@@ -18,15 +18,15 @@ def handlers : List Handler := [
   ⟨"token", true, true, true, true, true⟩]
 
 /-- farm `Params.Validate` calls `validateTaxRate` -/
-def farmValidatesTaxRate : Bool := false
+def farmValidatesTaxRate : Bool := true
 
 /-- farm `validateTaxRate` rejects an unset decimal before comparing it -/
-def farmTaxRateNilGuard : Bool := false
+def farmTaxRateNilGuard : Bool := true
 
 /-- coinswap `Params.Validate` validates the pool-creation-fee denomination -/
-def coinswapValidatesFeeDenom : Bool := false
+def coinswapValidatesFeeDenom : Bool := true
 
 /-- token `validateIssueTokenBaseFee` validates the base-fee denomination -/
-def tokenValidatesFeeDenom : Bool := false
+def tokenValidatesFeeDenom : Bool := true
 
 end Irismod.Gen.Handlers
